@@ -958,7 +958,7 @@ static const yytype_int16 yyrline[] =
     2392,  2402,  2417,  2416,  2429,  2430,  2435,  2468,  2493,  2549,
     2556,  2562,  2568,  2578,  2582,  2590,  2602,  2616,  2623,  2630,
     2655,  2667,  2679,  2691,  2706,  2718,  2733,  2778,  2799,  2834,
-    2869,  2903,  2934,  2957,  2967,  2977,  2987,  2997,  3017,  3037
+    2869,  2908,  2939,  2962,  2972,  2982,  2992,  3002,  3022,  3042
 };
 #endif
 
@@ -5069,7 +5069,12 @@ yyreduce:
 
           if (!IS_UNDEFINED(i1) && !IS_UNDEFINED(i2) &&
               (
-                i2 != 0 && llabs(i1) > INT64_MAX / llabs(i2)
+                // llabs(INT64_MIN) is undefined, INT64_MIN overflows with any
+                // factor other than 0 and 1.
+                i2 != 0 && i1 != 0 &&
+                ((i1 == INT64_MIN) ? (i2 != 1) :
+                 (i2 == INT64_MIN) ? (i1 != 1) :
+                 llabs(i1) > INT64_MAX / llabs(i2))
               ))
           {
             yr_compiler_set_error_extra_info_fmt(
@@ -5090,11 +5095,11 @@ yyreduce:
 
         fail_if_error(result);
       }
-#line 5094 "libyara/grammar.c"
+#line 5099 "libyara/grammar.c"
     break;
 
   case 161: /* primary_expression: primary_expression '\\' primary_expression  */
-#line 2904 "libyara/grammar.y"
+#line 2909 "libyara/grammar.y"
       {
         int result = yr_parser_reduce_operation(
             yyscanner, "\\", (yyvsp[-2].expression), (yyvsp[0].expression));
@@ -5125,11 +5130,11 @@ yyreduce:
 
         fail_if_error(result);
       }
-#line 5129 "libyara/grammar.c"
+#line 5134 "libyara/grammar.c"
     break;
 
   case 162: /* primary_expression: primary_expression '%' primary_expression  */
-#line 2935 "libyara/grammar.y"
+#line 2940 "libyara/grammar.y"
       {
         check_type((yyvsp[-2].expression), EXPRESSION_TYPE_INTEGER, "%");
         check_type((yyvsp[0].expression), EXPRESSION_TYPE_INTEGER, "%");
@@ -5152,11 +5157,11 @@ yyreduce:
           fail_if_error(ERROR_DIVISION_BY_ZERO);
         }
       }
-#line 5156 "libyara/grammar.c"
+#line 5161 "libyara/grammar.c"
     break;
 
   case 163: /* primary_expression: primary_expression '^' primary_expression  */
-#line 2958 "libyara/grammar.y"
+#line 2963 "libyara/grammar.y"
       {
         check_type((yyvsp[-2].expression), EXPRESSION_TYPE_INTEGER, "^");
         check_type((yyvsp[0].expression), EXPRESSION_TYPE_INTEGER, "^");
@@ -5166,11 +5171,11 @@ yyreduce:
         (yyval.expression).type = EXPRESSION_TYPE_INTEGER;
         (yyval.expression).value.integer = OPERATION(^, (yyvsp[-2].expression).value.integer, (yyvsp[0].expression).value.integer);
       }
-#line 5170 "libyara/grammar.c"
+#line 5175 "libyara/grammar.c"
     break;
 
   case 164: /* primary_expression: primary_expression '&' primary_expression  */
-#line 2968 "libyara/grammar.y"
+#line 2973 "libyara/grammar.y"
       {
         check_type((yyvsp[-2].expression), EXPRESSION_TYPE_INTEGER, "^");
         check_type((yyvsp[0].expression), EXPRESSION_TYPE_INTEGER, "^");
@@ -5180,11 +5185,11 @@ yyreduce:
         (yyval.expression).type = EXPRESSION_TYPE_INTEGER;
         (yyval.expression).value.integer = OPERATION(&, (yyvsp[-2].expression).value.integer, (yyvsp[0].expression).value.integer);
       }
-#line 5184 "libyara/grammar.c"
+#line 5189 "libyara/grammar.c"
     break;
 
   case 165: /* primary_expression: primary_expression '|' primary_expression  */
-#line 2978 "libyara/grammar.y"
+#line 2983 "libyara/grammar.y"
       {
         check_type((yyvsp[-2].expression), EXPRESSION_TYPE_INTEGER, "|");
         check_type((yyvsp[0].expression), EXPRESSION_TYPE_INTEGER, "|");
@@ -5194,11 +5199,11 @@ yyreduce:
         (yyval.expression).type = EXPRESSION_TYPE_INTEGER;
         (yyval.expression).value.integer = OPERATION(|, (yyvsp[-2].expression).value.integer, (yyvsp[0].expression).value.integer);
       }
-#line 5198 "libyara/grammar.c"
+#line 5203 "libyara/grammar.c"
     break;
 
   case 166: /* primary_expression: '~' primary_expression  */
-#line 2988 "libyara/grammar.y"
+#line 2993 "libyara/grammar.y"
       {
         check_type((yyvsp[0].expression), EXPRESSION_TYPE_INTEGER, "~");
 
@@ -5208,11 +5213,11 @@ yyreduce:
         (yyval.expression).value.integer = ((yyvsp[0].expression).value.integer == YR_UNDEFINED) ?
             YR_UNDEFINED : ~((yyvsp[0].expression).value.integer);
       }
-#line 5212 "libyara/grammar.c"
+#line 5217 "libyara/grammar.c"
     break;
 
   case 167: /* primary_expression: primary_expression "<<" primary_expression  */
-#line 2998 "libyara/grammar.y"
+#line 3003 "libyara/grammar.y"
       {
         int result;
 
@@ -5232,11 +5237,11 @@ yyreduce:
 
         fail_if_error(result);
       }
-#line 5236 "libyara/grammar.c"
+#line 5241 "libyara/grammar.c"
     break;
 
   case 168: /* primary_expression: primary_expression ">>" primary_expression  */
-#line 3018 "libyara/grammar.y"
+#line 3023 "libyara/grammar.y"
       {
         int result;
 
@@ -5256,19 +5261,19 @@ yyreduce:
 
         fail_if_error(result);
       }
-#line 5260 "libyara/grammar.c"
+#line 5265 "libyara/grammar.c"
     break;
 
   case 169: /* primary_expression: regexp  */
-#line 3038 "libyara/grammar.y"
+#line 3043 "libyara/grammar.y"
       {
         (yyval.expression) = (yyvsp[0].expression);
       }
-#line 5268 "libyara/grammar.c"
+#line 5273 "libyara/grammar.c"
     break;
 
 
-#line 5272 "libyara/grammar.c"
+#line 5277 "libyara/grammar.c"
 
       default: break;
     }
@@ -5492,5 +5497,5 @@ yyreturnlab:
   return yyresult;
 }
 
-#line 3043 "libyara/grammar.y"
+#line 3048 "libyara/grammar.y"
 
